@@ -115,12 +115,32 @@ def run(res: C.Result):
                              f"(all differing: {bad})", {"input": c, "k": kk, "steps_after_restart": j + 1,
                                                         "observed": {x: got.get(x) for x in bad if x != "arrays"}, "expected": {x: want.get(x) for x in bad if x != "arrays"}})
                     break
+            ch = rec.get("chain")
+            if ch:
+                dist["second_generation_restarts"] = dist.get("second_generation_restarts", 0) + 1
+                k2 = kk + ch["j"]
+                if ch["step_count_loaded"] != k2:
+                    res.fail(f"restart:{drv}:chain:step_count", f"{drv}: a simulation rebuilt from the file of step {kk} ran {ch['j']} step(s) and wrote its own restart file; that file loads with "
+                             f"step_count={ch['step_count_loaded']}, expected {k2}", {"input": c, "k": kk})
+                if len(ch["got"]) != len(ref) - k2:
+                    res.fail(f"restart:{drv}:chain:steps-performed", f"{drv}: second-generation restart at step {k2}: asked for {len(ref) - k2} steps, performed {len(ch['got'])}", {"input": c, "k": kk})
+                for j, got in enumerate(ch["got"]):
+                    want = ref[k2 + j]
+                    dist["resumed_steps_compared"] += 1
+                    bad = [key for key in KEYS if want.get(key) != got.get(key) and not same_energy(key, want.get(key), got.get(key), c["program"])]
+                    if bad:
+                        res.fail(f"restart:{drv}:chain:{bad[0]}", f"{drv}: restarted at step {kk}, ran {ch['j']} step(s), restarted again from the file the rebuilt simulation wrote; {j + 1} step(s) later the "
+                                 f"{bad[0]} differ(s) from the uninterrupted run (all differing: {bad})",
+                                 {"input": c, "k": kk, "second_restart_at": k2, "steps_after_restart": j + 1,
+                                  "observed": {x: got.get(x) for x in bad if x != "arrays"}, "expected": {x: want.get(x) for x in bad if x != "arrays"}})
+                        break
     dist["file_sizes"] = [min(dist["file_sizes"]), max(dist["file_sizes"])] if dist["file_sizes"] else []
     res.coverage.update(
         evaluations=dist["resumed_steps_compared"] + dist["restart_points"], distinct_nontrivial=len(distinct),
         rule="generated programs on Canonical, HamiltonianCanonical, Isobaric, Isotension, GrandCanonical (tables with d, d*k, a+b, a+(b+c), Hamiltonian, cell moves alone and "
              "c+d, exchange e, e1+e2, d+e; molecular species; composite operations inside moves; FixAtoms / FixCom; shipped criteria at 3000 K so that accept / reject / insert / "
-             "delete all occur), restart observer at interval 1; EVERY step k of every run is a restart point; ForceBias / AdaptiveForceBias with restart_file; "
+             "delete all occur), restart observer at interval 1; EVERY step k of every run is a restart point, and from every one a SECOND-GENERATION restart is taken too (the rebuilt "
+             "simulation runs 1-2 steps with its own restart observer, and a simulation rebuilt from that file must continue the same run: C07_chained_restarts); ForceBias / AdaptiveForceBias with restart_file; "
              "non-trivial = distinct (program, k)",
         correspondence={"flavour": "translator + behaviour: the property verbatim on the real restart file of every step",
                         "cases": dist["restart_points"], "agreed": dist["restart_points"] - len({(f["replay"].get("k"), id(f["replay"].get("input"))) for f in res.failures}),
